@@ -195,6 +195,15 @@ pub struct SynGen<'a> {
     pub ext_letters: bool,
     /// allow strings with line breaks / exotic content
     pub wild_strings: bool,
+    /// one pronoun per `pronoun_den` identifiers (0 = never)
+    pub pronoun_den: u32,
+    pub allow_pop: bool,
+    /// when set, every generated call is `echo taking <unique id>, <unary>` (a function that
+    /// prints the id and returns its second argument): a side-effect witness
+    pub echo: Option<Name>,
+    pub next_id: u32,
+    /// literal pools for value-oriented generation (None = syntax-oriented defaults)
+    pub sem_literals: bool,
 }
 
 const STRINGS: &[&str] = &[
@@ -224,11 +233,16 @@ impl<'a> SynGen<'a> {
             max_block_depth: 3,
             ext_letters: ext,
             wild_strings: true,
+            pronoun_den: 6,
+            allow_pop: true,
+            echo: None,
+            next_id: 100,
+            sem_literals: false,
         }
     }
 
     pub fn name(&mut self) -> Name {
-        if self.rng.chance(1, 10) {
+        if !self.sem_literals && self.rng.chance(1, 10) {
             fresh_name(self.rng, self.ext_letters)
         } else {
             self.rng.pick_clone(&self.names)
@@ -236,7 +250,7 @@ impl<'a> SynGen<'a> {
     }
 
     pub fn ident(&mut self) -> Ident {
-        if self.rng.chance(1, 6) {
+        if self.pronoun_den > 0 && self.rng.chance(1, self.pronoun_den) {
             Ident::Pronoun
         } else {
             Ident::Name(self.name())
@@ -244,6 +258,9 @@ impl<'a> SynGen<'a> {
     }
 
     pub fn number(&mut self) -> f64 {
+        if self.sem_literals {
+            return *self.rng.pick(&[0.0, 1.0, 1.0, 2.0, 3.0, 0.5, 2.5, 10.0, 7.0, 1e21, 0.0000001, 9007199254740992.0]);
+        }
         match self.rng.below(12) {
             0 => 0.0,
             1 => 1.0,
@@ -260,6 +277,12 @@ impl<'a> SynGen<'a> {
     }
 
     pub fn string(&mut self) -> String {
+        if self.sem_literals {
+            return self
+                .rng
+                .pstr(&["", "a", "abc", "1", "0", " 1", "1e1", "2", "true", "é", "hello world", "-1", "mysterious"])
+                .to_string();
+        }
         if self.wild_strings && self.rng.chance(1, 8) {
             // multi-line or noisy
             let a = *self.rng.pick(STRINGS);
@@ -286,7 +309,7 @@ impl<'a> SynGen<'a> {
         if depth > 0 && tail == Tail::Free {
             w[2] = 2; // call
         }
-        if depth > 0 && tail != Tail::NoCallNoPop {
+        if depth > 0 && tail != Tail::NoCallNoPop && self.allow_pop {
             w[3] = 1; // pop
         }
         match self.rng.weighted(&w) {
@@ -298,6 +321,12 @@ impl<'a> SynGen<'a> {
     }
 
     fn call(&mut self, depth: usize) -> Prim {
+        if let Some(echo) = self.echo.clone() {
+            self.next_id += 1;
+            let id = self.next_id;
+            let arg = self.unary(depth, Tail::Free);
+            return Prim::Call(echo, vec![num(id as f64), arg]);
+        }
         let name = if self.rng.chance(1, 4) {
             self.name()
         } else {
